@@ -473,8 +473,21 @@ func c10Queue(p *Prog, l *Ledger, locks *LockInfo) {
 		}
 		var acq *ssa.Call
 		var evicts []*ssa.Call
-		var delivers []*ssa.Call
+		var delivers []ssa.Instruction
 		allInstrs(f, func(ins ssa.Instruction) {
+			// a delivery written in place: a select / send offering a Listener on a channel
+			switch x := ins.(type) {
+			case *ssa.Select:
+				for _, st := range x.States {
+					if st.Dir == types.SendOnly && st.Send != nil && types.Identical(st.Send.Type(), lis) {
+						delivers = append(delivers, ins)
+					}
+				}
+			case *ssa.Send:
+				if types.Identical(x.X.Type(), lis) {
+					delivers = append(delivers, ins)
+				}
+			}
 			call, ok := ins.(*ssa.Call)
 			if !ok {
 				return
@@ -510,7 +523,12 @@ func c10Queue(p *Prog, l *Ledger, locks *LockInfo) {
 			if !pa.IsReturn() {
 				return true
 			}
-			for _, e := range append(append([]*ssa.Call{}, evicts...), delivers...) {
+			var both []ssa.Instruction
+			for _, e := range evicts {
+				both = append(both, e)
+			}
+			both = append(both, delivers...)
+			for _, e := range both {
 				st := pa.StepOf(e)
 				if st < 0 {
 					continue
